@@ -346,7 +346,7 @@ func init() {
 		"(github.com/inconshreveable/log15.Logger).Info", "(github.com/inconshreveable/log15.Logger).Debug", "(github.com/inconshreveable/log15.Logger).Warn",
 		"(github.com/inconshreveable/log15.Logger).Error", "(github.com/inconshreveable/log15.Logger).Crit", "(github.com/inconshreveable/log15.Logger).New",
 		"(common.Logger).Info", "(common.Logger).Debug", "(common.Logger).Warn", "(common.Logger).Error", "(common.Logger).Crit", "(common.Logger).New",
-		"fmt.Sprintf", "fmt.Sprint", "fmt.Println", "fmt.Printf", "fmt.Sprintln", "regexp.MatchString", "crypto/ed25519.GenerateKey", "crypto/ed25519.Sign", "github.com/tyler-smith/go-bip39.NewMnemonic", "github.com/tyler-smith/go-bip39.NewSeed", "crypto/hmac.New", "(hash.Hash).Write", "(time.Time).UTC", "(*regexp.Regexp).MatchString", "strings.TrimRight", "strings.TrimLeft", "strings.TrimSpace", "bytes.NewReader", "(*encoding/base64.Encoding).DecodeString", "time.Now", "time.Since", "(time.Time).Sub", "(time.Time).Add", "time.Unix",
+		"fmt.Sprintf", "fmt.Sprint", "fmt.Println", "fmt.Printf", "fmt.Sprintln", "regexp.MatchString", "reflect.DeepEqual", "github.com/ethereum/go-ethereum/common.IsHexAddress", "strings.ToLower", "crypto/ed25519.GenerateKey", "crypto/ed25519.Sign", "github.com/tyler-smith/go-bip39.NewMnemonic", "github.com/tyler-smith/go-bip39.NewSeed", "crypto/hmac.New", "(hash.Hash).Write", "(time.Time).UTC", "(*regexp.Regexp).MatchString", "strings.TrimRight", "strings.TrimLeft", "strings.TrimSpace", "bytes.NewReader", "(*encoding/base64.Encoding).DecodeString", "time.Now", "time.Since", "(time.Time).Sub", "(time.Time).Add", "time.Unix",
 		"(github.com/inconshreveable/log15.Logger).Trace", "github.com/inconshreveable/log15.Error", "github.com/inconshreveable/log15.Info", "github.com/inconshreveable/log15.Warn", "github.com/inconshreveable/log15.Debug", "github.com/inconshreveable/log15.Crit", "(time.Duration).Seconds",
 		"(*sync.WaitGroup).Add", "(*sync.WaitGroup).Done", "(*sync.WaitGroup).Wait", "runtime/debug.Stack", "strings.ToLower", "strings.ToUpper",
 		"encoding/hex.EncodeToString", "strconv.Itoa", "strconv.FormatUint", "strconv.FormatInt"} {
@@ -1089,7 +1089,11 @@ func (fr *Frame) abiDecoded(st *State, t types.Type, path string, name, bv *Term
 		}
 	case KPtr:
 		if isBigIntPtr(t) {
-			return fr.newBig(st, t, App(fn, SInt, name, bv))
+			// every *big.Int target in the embedded ABIs is declared uint256 (no signed big type occurs in the ABI definitions):
+			// the decoded value is non-negative
+			x := App(fn, SInt, name, bv)
+			c.addFact(Le(Num(0), x))
+			return fr.newBig(st, t, x)
 		}
 	case KSlice:
 		if et := tstr(under(t).(*types.Slice).Elem()); et == "byte" || et == "uint8" {
